@@ -49,12 +49,13 @@ def run(tier, seed):
     c = Check(PROP, tier, seed, "exploration")
     wd = vlib.workdir("c19")
     c.assumptions = ["the rank table of the driver is the oracle (values are laid out on the number line by construction; text is byte-lexicographic)",
-                     "the grid is fixed (boundary grid); nothing is sampled beyond it, so VERIF_SEED does not change the workload",
+                     "quick: the boundary grid only (VERIF_SEED does not change it); thorough: plus 120 seeded values away from the boundaries; ranks are computed by exact comparison (i128 / double decomposition) and cross-checked against the hand-ordered table",
                      "observers through SQL use the literals the parser accepts (no float32 / NaN / infinity literals); API-level relations cover those",
                      "shipped deviations modelled exactly: " + ", ".join(AS_BUILT)]
     model_check(c)
     tp = os.path.join(wd, "values.ndjson")
-    _, so, _ = axv(["values", "--out", tp, "--dir", os.path.join(wd, "values-db")], timeout=600)
+    extra = [] if tier == "quick" else ["--extra", 120, "--seed", seed]
+    _, so, _ = axv(["values", "--out", tp, "--dir", os.path.join(wd, "values-db")] + extra, timeout=600)
     st = last_json(so)
     okdev, r0 = None, None
     for dev in dev_sets():
